@@ -320,9 +320,9 @@ def main(argv=None):
         report.say('no longer reproduces')
         return env.EXIT_OK
     n = args.runs or int(os.environ.get('VERIF_RUNS', 0)) or dict(
-        quick=72, thorough=1500)[tier]
+        quick=96, thorough=1500)[tier]
     budget = float(os.environ.get('VERIF_BUDGET_S', 0)) or dict(
-        quick=130, thorough=1500)[tier]
+        quick=170, thorough=1500)[tier]
     verdict = report.Verdict(PROP)
     try:
         outs = orchestrator.run_parallel(
